@@ -180,6 +180,7 @@ fn main() {
         Some("fields-run") => per_line(&a, verif_harness::fields::run_case),
         Some("io-run") => per_line(&a, verif_harness::io::run_case),
         Some("build-run") => per_line(&a, verif_harness::builder::run_case),
+        Some("ctl-run") => per_line(&a, verif_harness::ctl::run_case),
         Some("ext-run") => per_line(&a, verif_harness::extchain::run_config),
         other => {
             eprintln!("unknown sub command {:?}", other);
